@@ -6,6 +6,7 @@ import (
 	"regexp"
 	"strconv"
 	"strings"
+	"time"
 
 	"github.com/ozontech/file.d/cfg"
 	"github.com/ozontech/file.d/fd"
@@ -14,10 +15,13 @@ import (
 	"github.com/ozontech/file.d/plugin/action/join"
 	"github.com/ozontech/file.d/plugin/action/join_template"
 	"github.com/ozontech/file.d/plugin/action/join_template/template"
+	"github.com/ozontech/file.d/plugin/input/k8s"
+	"github.com/ozontech/file.d/plugin/input/k8s/meta"
 	insaneJSON "github.com/ozontech/insane-json"
 	"github.com/prometheus/client_golang/prometheus"
 	"go.uber.org/zap"
 	"go.uber.org/zap/zapcore"
+	corev1 "k8s.io/api/core/v1"
 
 	"verifharness/internal/hx"
 	"verifharness/internal/jt"
@@ -40,6 +44,7 @@ import (
 func init() {
 	execs["c15.join"] = execC15Join
 	execs["c15.jt"] = execC15JT
+	execs["c15.k8s"] = execC15K8s
 	gens["C15"] = genC15
 }
 
@@ -642,4 +647,296 @@ func genC15JT(w *bufio.Writer, rng *hx.Rng, tier string) {
 func genC15(w *bufio.Writer, rng *hx.Rng, tier string) {
 	genC15Join(w, rng, tier)
 	genC15JT(w, rng, tier)
+	genC15K8s(w, rng, tier)
+}
+
+// ---------------------------------------------------------------- k8s MultilineAction
+//
+//	c15.k8s <split> <max> <cutOff> <cutField|-> <n> item…
+//	    item = T <tag> | E <tag> <size> <kind A|N|S> <frag> <raw JSON text of the log value|->
+//	result = (R <res> (N | L <escaped log>) <cut> <exceeded>)… (ok | panic:<kind> | fatal)
+//
+// <frag> is the oracle: what insane-json AppendEscapedString yields for the `log` node
+// (recomputed here; a case whose oracle disagrees is rejected).
+
+const (
+	c15Pod = "pod-1"
+	c15NS  = "ns"
+	c15Ctr = "ctr"
+	c15CID = "4e0301b633eaa2bfdcafdeba59ba0c72a3815911a6a820bf273534b0f32d98e0"
+)
+
+var c15MetaOnce bool
+
+func c15K8sMeta() {
+	if c15MetaOnce {
+		return
+	}
+	c15MetaOnce = true
+	meta.DisableMetaUpdates = true
+	meta.MetaExpireDuration = 24 * time.Hour
+	meta.EnableGatherer(c15Logger()) // creates the deleted-pods cache GetPodMeta consults; no k8s client
+	pod := &corev1.Pod{}
+	pod.Namespace = c15NS
+	pod.Name = c15Pod
+	pod.Status.ContainerStatuses = make([]corev1.ContainerStatus, 1)
+	pod.Status.ContainerStatuses[0].Name = c15Ctr
+	pod.Status.ContainerStatuses[0].ContainerID = "containerd://" + c15CID
+	meta.PutMeta(pod)
+	meta.SelfNodeName = "node-1"
+}
+
+func c15K8sJSON(raw []byte, absent bool) []byte {
+	var b []byte
+	b = append(b, '{')
+	if !absent {
+		b = append(b, `"log":`...)
+		b = append(b, raw...)
+		b = append(b, ',')
+	}
+	b = append(b, fmt.Sprintf(`"k8s_pod":%q,"k8s_namespace":%q,"k8s_container":%q,"k8s_container_id":%q}`, c15Pod, c15NS, c15Ctr, c15CID)...)
+	return b
+}
+
+// (kind, frag) as the real library sees the value
+func c15K8sOracle(text []byte) (kind string, frag []byte, ok bool) {
+	root := insaneJSON.Spawn()
+	defer insaneJSON.Release(root)
+	if err := root.DecodeBytes(text); err != nil {
+		return "", nil, false
+	}
+	n := root.Dig("log")
+	switch {
+	case n == nil:
+		return "A", nil, true
+	case n.IsString():
+		return "S", n.AppendEscapedString(nil), true
+	default:
+		return "N", n.AppendEscapedString(nil), true
+	}
+}
+
+type c15KItem struct {
+	timeout bool
+	tag     int
+	size    int
+	absent  bool
+	raw     []byte
+}
+
+func execC15K8s(t *hx.Toks) string {
+	split := t.Int()
+	max := t.Int()
+	cutOff := t.Bool()
+	cutField := string(t.Bytes())
+	n := t.Int()
+	if t.Err != nil {
+		return "bad-case"
+	}
+	var items []c15KItem
+	for i := 0; i < n && t.Err == nil; i++ {
+		switch t.Next() {
+		case "T":
+			items = append(items, c15KItem{timeout: true, tag: t.Int()})
+		case "E":
+			it := c15KItem{tag: t.Int(), size: t.Int()}
+			kind := t.Next()
+			frag := t.Bytes()
+			raw := t.Next()
+			if t.Err != nil {
+				return "bad-case"
+			}
+			if raw == "-" {
+				it.absent = true
+			} else {
+				b, err := hx.Dec(raw)
+				if err != nil {
+					return "bad-case"
+				}
+				it.raw = b
+			}
+			k, f, ok := c15K8sOracle(c15K8sJSON(it.raw, it.absent))
+			if !ok || k != kind || (k == "S" && string(f) != string(frag)) {
+				return "bad-case"
+			}
+			items = append(items, it)
+		default:
+			return "bad-case"
+		}
+	}
+	if t.Err != nil || !t.Done() {
+		return "bad-case"
+	}
+	c15K8sMeta()
+	plugin, _ := k8s.MultilineActionFactory()
+	ap := plugin.(pipeline.ActionPlugin)
+	ctl := &c15Ctl{}
+	ap.Start(&k8s.Config{SplitEventSize: split}, c15Params(ctl, &pipeline.Settings{
+		MaxEventSize:            max,
+		CutOffEventByLimit:      cutOff,
+		CutOffEventByLimitField: cutField,
+	}))
+	defer ap.Stop()
+	var sb strings.Builder
+	for _, it := range items {
+		var e *pipeline.Event
+		var root *insaneJSON.Root
+		if it.timeout {
+			e = c15Timeout()
+		} else {
+			root = insaneJSON.Spawn()
+			if err := root.DecodeBytes(c15K8sJSON(it.raw, it.absent)); err != nil {
+				insaneJSON.Release(root)
+				return "bad-case"
+			}
+			e = &pipeline.Event{Root: root, Size: it.size, SourceName: "k8s/x.log"}
+		}
+		ctl.exceeds = 0
+		res, end := c15Do(ap, e)
+		if end != "" {
+			sb.WriteString(end)
+			if root != nil {
+				insaneJSON.Release(root)
+			}
+			return sb.String()
+		}
+		fmt.Fprintf(&sb, "R %s ", c15ResTok(res))
+		if res == pipeline.ActionPass && root != nil {
+			fmt.Fprintf(&sb, "L %s %s ", hx.Enc([]byte(root.Dig("log").AsEscapedString())), hx.B(cutField != "" && root.Dig(cutField) != nil))
+		} else {
+			sb.WriteString("N 0 ")
+		}
+		fmt.Fprintf(&sb, "%s ", hx.B(ctl.exceeds > 0))
+		if root != nil {
+			insaneJSON.Release(root)
+		}
+	}
+	sb.WriteString("ok")
+	return sb.String()
+}
+
+func c15K8sLine(w *bufio.Writer, split, max int, cutOff bool, cutField string, items []c15KItem) {
+	fmt.Fprintf(w, "c15.k8s %d %d %s %s %d", split, max, hx.B(cutOff), hx.Enc([]byte(cutField)), len(items))
+	for _, it := range items {
+		if it.timeout {
+			fmt.Fprintf(w, " T %d", it.tag)
+			continue
+		}
+		k, f, ok := c15K8sOracle(c15K8sJSON(it.raw, it.absent))
+		if !ok {
+			k, f = "A", nil // never generated: raw values are valid JSON
+		}
+		if k != "S" {
+			f = nil
+		}
+		raw := "-"
+		if !it.absent {
+			raw = hx.Enc(it.raw)
+		}
+		fmt.Fprintf(w, " E %d %d %s %s %s", it.tag, it.size, k, hx.Enc(f), raw)
+	}
+	w.WriteByte('\n')
+}
+
+const c15LA = 128 * 1024
+
+func genC15K8s(w *bufio.Writer, rng *hx.Rng, tier string) {
+	// exhaustive small scope over chunk shapes x limit modes
+	raws := []string{`"a"`, `"bc"`, `"d\n"`, `""`, `"\\n"`, `"\n"`, `"x\\\n"`, `5`, `12`, `123`, `null`, `true`, `{"a":1}`, `[1]`, "-", "T"}
+	type kcfg struct {
+		split, max int
+		cut        bool
+		field      string
+	}
+	cfgs := []kcfg{
+		{1000000, 0, false, ""},
+		{1000000, 8, false, ""},
+		{1000000, 8, true, "cut"},
+		{c15LA + 25, 0, false, ""},
+		{c15LA + 25, 12, true, ""},
+	}
+	maxLen := 3
+	if tier == "thorough" {
+		maxLen = 4
+	}
+	mk := func(r string) c15KItem {
+		switch r {
+		case "T":
+			return c15KItem{timeout: true}
+		case "-":
+			return c15KItem{absent: true, size: 10}
+		}
+		return c15KItem{raw: []byte(r), size: 10}
+	}
+	var rec func(cur []int)
+	rec = func(cur []int) {
+		if len(cur) > 0 {
+			for _, c := range cfgs {
+				items := make([]c15KItem, len(cur))
+				for i, a := range cur {
+					items[i] = mk(raws[a])
+				}
+				c15K8sLine(w, c.split, c.max, c.cut, c.field, items)
+			}
+		}
+		if len(cur) == maxLen {
+			return
+		}
+		for a := range raws {
+			rec(append(cur, a))
+		}
+	}
+	rec(nil)
+
+	nrand := 1500
+	if tier == "thorough" {
+		nrand = 40000
+	}
+	alpha := []byte("abc \\n\n\"\t<é")
+	for i := 0; i < nrand; i++ {
+		max := []int{0, 0, 8, 64, 64, 20, 4}[rng.Intn(7)]
+		cut := rng.Bool()
+		field := ""
+		if cut && rng.Bool() {
+			field = "cutoff"
+		}
+		split := 1000000
+		if rng.Chance(1, 3) {
+			split = c15LA + rng.Range(0, 120)
+		}
+		n := rng.Range(1, 14)
+		var items []c15KItem
+		for len(items) < n {
+			var it c15KItem
+			it.tag = 0
+			switch r := rng.Intn(40); {
+			case r == 0:
+				it.timeout = true
+			case r == 1:
+				it.absent = true
+			case r == 2:
+				it.raw = []byte([]string{"1", "12", "123", "null", "true", "false", `{"log":"x"}`, `["a\n"]`, "1e9"}[rng.Intn(9)])
+			default:
+				// a chunk: mostly partial, sometimes ending the line; content from a small alphabet
+				// with backslashes, quotes and real newlines so that escapes land on chunk borders
+				k := rng.Range(0, 9)
+				if rng.Chance(1, 8) {
+					k = rng.Range(10, 70)
+				}
+				content := rng.Bytes(k, alpha)
+				if rng.Chance(2, 5) {
+					content = append(content, '\n')
+				}
+				if rng.Chance(1, 12) {
+					content = append(content, '\\', 'n')
+				}
+				it.raw = jt.AppendQuoted(nil, content)
+			}
+			if !it.timeout {
+				it.size = len(it.raw) + rng.Range(0, 40)
+			}
+			items = append(items, it)
+		}
+		c15K8sLine(w, split, max, cut, field, items)
+	}
 }
